@@ -20,7 +20,7 @@ type c16Task struct {
 	subStamp int // stamp taken after Submit returned
 }
 
-//verif:h prop=C16 p.workers=1/2 p.second=1/2 preempt=1/2 cover=done,ran runs=30000000 timeout=280/900 steps=400000
+//verif:h prop=C16 p.workers=1/2 p.second=1/2 preempt=1/2 cover=done,ran runs=30000000 timeout=900/900 steps=400000
 func H_C16_submit_shutdown() {
 	workers := 1 + verifrt.Choose("workers", verifrt.Param("workers", 1))
 	cancel := verifrt.Choose("cancel", 2) == 1
@@ -89,7 +89,7 @@ func H_C16_submit_shutdown() {
 
 // H_C16_restart: Shutdown, wait, Start again, Submit: the pool works again and conserves the task.
 //
-//verif:h prop=C16 preempt=1/2 cover=restarted runs=30000000 timeout=280/900 steps=400000
+//verif:h prop=C16 preempt=1/2 cover=restarted runs=30000000 timeout=900/900 steps=400000
 func H_C16_restart() {
 	wp := New("p", WithWorkerCount(1)).Start()
 	var ran atomic.Int32
@@ -113,7 +113,7 @@ func H_C16_restart() {
 
 // H_C16_group: Group.WaitChildren returns only when no pool below the group has pending tasks.
 //
-//verif:h prop=C16 preempt=1/2 cover=waited runs=30000000 timeout=280/900 steps=400000
+//verif:h prop=C16 preempt=1/2 cover=waited runs=30000000 timeout=900/900 steps=400000
 func H_C16_group() {
 	g := NewGroup("g")
 	sub := g.CreateGroup("sub")
@@ -155,7 +155,7 @@ func H_C16_group() {
 // the pool already counts as pending when WaitChildren is called has finished when it returns (the pool's counter
 // and the group's view of it change in one step).
 //
-//verif:h prop=C16 preempt=2/3 cover=pending-at-call,idle-at-call runs=30000000 timeout=280/900 steps=400000
+//verif:h prop=C16 preempt=2/3 cover=pending-at-call,idle-at-call runs=30000000 timeout=900/900 steps=400000
 func H_C16_group_window() {
 	g := NewGroup("g")
 	p := g.CreatePool("p", WithWorkerCount(1))
@@ -180,7 +180,7 @@ func H_C16_group_window() {
 // the leaf group has no pending tasks; an explicit cancel-on-shutdown=false option given to CreatePool is
 // honoured (queued tasks run on Shutdown).
 //
-//verif:h prop=C16 preempt=1/2 cover=mid-waited,ran-on-shutdown runs=30000000 timeout=280/900 steps=400000
+//verif:h prop=C16 preempt=1/2 cover=mid-waited,ran-on-shutdown runs=30000000 timeout=900/900 steps=400000
 func H_C16_group_tree() {
 	root := NewGroup("root")
 	mid := root.CreateGroup("mid")
